@@ -1,7 +1,11 @@
 import Driver.Common
 import Driver.C18
+import Driver.C09
+import Driver.C08
 import Driver.Registry
 import Driver.Pg
+import Driver.C16
+import Driver.C20
 
 def main (args : List String) : IO UInt32 := do
   match args with
@@ -10,8 +14,12 @@ def main (args : List String) : IO UInt32 := do
     let impl ← Driver.readLines implPath
     let t ← match model with
       | "c18" => Driver.C18.run ops impl
+      | "c09" => Driver.C09.run ops impl
+      | "c08" => Driver.C08.run ops impl
       | "registry" => Driver.Registry.run ops impl
       | "pg" => Driver.Pg.run ops impl
+      | "c16" => Driver.C16.run ops impl
+      | "c20" => Driver.C20.run ops impl
       | _ => do IO.eprintln s!"unknown model {model}"; return 2
     return (if t.diffs == 0 && t.oracleFails == 0 then 0 else 1)
   | _ =>
